@@ -191,6 +191,9 @@ mod api {
 		async fn only_filter(&self, filter: Filter) -> RpcResult<Filter>;
 		#[method(name = "onlyLabels", param_kind = map)]
 		fn only_labels(&self, labels: HashMap<String, i64>) -> RpcResult<HashMap<String, i64>>;
+		/// arguments declared with raw identifiers
+		#[method(name = "rawIdent", param_kind = map)]
+		fn raw_ident(&self, nonce: u64, r#type: String, r#match: Option<i64>) -> RpcResult<String>;
 	}
 
 	/// namespace with `/`
@@ -467,6 +470,10 @@ impl NamedServer for Srv {
 	async fn only_filter(&self, filter: Filter) -> RpcResult<Filter> {
 		rec!(self, "Named::only_filter", filter);
 		Ok(Filter { min: filter.max, max: filter.min, tag: Some(format!("{}:{}", self.salt, filter.tag.unwrap_or_default())) })
+	}
+	fn raw_ident(&self, nonce: u64, r#type: String, r#match: Option<i64>) -> RpcResult<String> {
+		rec!(self, "Named::raw_ident", nonce, r#type, r#match);
+		Ok(format!("{}:{}:{}", self.salt, r#type, r#match.unwrap_or(-1)))
 	}
 	fn only_labels(&self, labels: HashMap<String, i64>) -> RpcResult<HashMap<String, i64>> {
 		rec!(self, "Named::only_labels", labels);
@@ -768,6 +775,7 @@ static METHODS: &[MD] = &[
 	note(md("Named::m_note", "map.mNote", &[], &[NONCE, p("payload", Ty::Rec)], ByName, "async")),
 	md("Named::only_filter", "map.onlyFilter", &[], &[p("filter", Ty::Filter)], ByName, "async"),
 	md("Named::only_labels", "map.onlyLabels", &[], &[p("labels", Ty::MapI64)], ByName, "sync"),
+	md("Named::raw_ident", "map.rawIdent", &[], &[NONCE, p("r#type", Ty::Str), o("r#match", Ty::I64)], ByName, "sync"),
 	md("Chain::head", "chain/head", &["chain_head"], &[NONCE, p("h", Ty::Tagged)], Array, "async"),
 	md("Chain::ping", "chain/ping", &[], &[], Array, "blocking"),
 	md("Chain::kinds", "chain/kinds", &[], &[NONCE, p("v", Ty::VecKind), p("m", Ty::MapI64)], Array, "sync"),
@@ -1003,6 +1011,7 @@ fn expected(tag: &str, salt: u64, a: &[Value]) -> Want {
 			let f = fv::<Filter>(&a[0]);
 			Want::Ok(v(&Filter { min: f.max, max: f.min, tag: Some(format!("{salt}:{}", f.tag.unwrap_or_default())) }))
 		}
+		"Named::raw_ident" => Want::Ok(v(&format!("{salt}:{}:{}", fv::<String>(&a[1]), fv::<Option<i64>>(&a[2]).unwrap_or(-1)))),
 		"Named::only_labels" => {
 			let mut m = fv::<HashMap<String, i64>>(&a[0]);
 			m.insert("salt".into(), salt as i64);
@@ -1179,6 +1188,10 @@ struct Case {
 	order: Vec<usize>,
 	/// subscriptions: "handle" (Subscription::unsubscribe) or the wire name of the unsubscribe call
 	unsub: String,
+	/// raw / peer: how the params text is laid out - 0 compact, 1 spaces, 2 line feeds and tabs, 3 CRLF line ends (what a
+	/// pretty-printer on Windows produces); insignificant whitespace never changes the arguments
+	#[serde(default)]
+	ws_style: u8,
 }
 
 struct RawParams(Option<String>);
@@ -1194,7 +1207,8 @@ fn params_text(md: &MD, case: &Case) -> Option<String> {
 		"array" => {
 			let parts: Vec<String> =
 				case.args.iter().zip(&case.omit).filter(|(_, o)| !**o).map(|(a, _)| serde_json::to_string(a).unwrap()).collect();
-			Some(format!("[{}]", parts.join(",")))
+			let (open, sep, close) = layout(case.ws_style);
+			Some(format!("[{open}{}{close}]", parts.join(&format!(",{sep}"))))
 		}
 		_ => {
 			let mut parts = Vec::new();
@@ -1206,8 +1220,19 @@ fn params_text(md: &MD, case: &Case) -> Option<String> {
 				let key = if case.alt_keys && !p.alts.is_empty() { p.alts[0] } else { p.name };
 				parts.push(format!("{}:{}", serde_json::to_string(key).unwrap(), serde_json::to_string(&case.args[i]).unwrap()));
 			}
-			Some(format!("{{{}}}", parts.join(",")))
+			let (open, sep, close) = layout(case.ws_style);
+			Some(format!("{{{open}{}{close}}}", parts.join(&format!(",{sep}"))))
 		}
+	}
+}
+
+/// (after the opening bracket, after each comma, before the closing bracket)
+fn layout(style: u8) -> (&'static str, &'static str, &'static str) {
+	match style {
+		1 => (" ", " ", " "),
+		2 => ("\n\t", "\n\t", "\n"),
+		3 => ("\r\n  ", "\r\n  ", "\r\n"),
+		_ => ("", "", ""),
 	}
 }
 
@@ -1295,6 +1320,7 @@ fn gen_case(r: &mut Rng, nonce: u64) -> Case {
 		alt_keys,
 		order,
 		unsub,
+		ws_style: r.below(4) as u8,
 	}
 }
 
@@ -1444,6 +1470,7 @@ async fn typed_call<C: SubscriptionClientT + Sync>(c: &C, case: &Case, log: &Log
 		"Named::m_note" => tc!(NamedClient::m_note, u64, Rec),
 		"Named::only_filter" => tc!(NamedClient::only_filter, Filter),
 		"Named::only_labels" => tc!(NamedClient::only_labels, HashMap<String, i64>),
+		"Named::raw_ident" => tc!(NamedClient::raw_ident, u64, String, Option<i64>),
 		"Chain::head" => tc!(ChainClient::head, u64, Tagged),
 		"Chain::ping" => tc!(ChainClient::ping),
 		"Chain::kinds" => tc!(ChainClient::kinds, u64, Vec<Kind>, HashMap<String, i64>),
